@@ -12,6 +12,54 @@ template<class T, int D> void run_td(vp::Input const& in, vp::Ctx& ctx) {
 	static char const* const dl[] = {"D0", "D1", "D2", "D3", "D4"};
 	ctx.label(dl[D]); ctx.label(std::is_same_v<T, int> ? "T_int" : "T_Tracked");
 }
+// dimensionality 0: an array of exactly one element.  Copies are deep, assignment never rebinds, every array keeps its own storage; the forms that
+// instantiate on this tree are exercised (construction from a value, default construction, copy / move construction and assignment, swap, assignment of an
+// element value, assignment from an array of convertible element type, self-assignment).  Default and copy construction did not compile in assertion-enabled
+// builds on the pinned tree (repaired in /repo, see known_findings.txt).
+template<class T> void run_d0(vp::Input const& in, vp::Ctx& ctx) {
+	namespace multi = boost::multi;
+	vp::obs().reset();
+	ctx.desc << (std::is_same_v<T, int> ? "int" : "Tracked") << " D=0";
+	{
+		using Arr = multi::array<T, 0>;
+		std::unique_ptr<Arr> slot[4]; int model[4];
+		for(int i = 0; i < 4; ++i) { slot[i] = std::make_unique<Arr>(T(i)); model[i] = i; }
+		auto value = [](Arr const& a) { return vp::val(static_cast<T const&>(a)); };
+		bool nt = false;
+		for(int r = 0; r < in.nops(); ++r) {
+			unsigned const op = in.op(r, 0) % 10U; int const a = in.op(r, 1) % 4; int b = in.op(r, 2) % 4; int const v = 10 + in.op(r, 3) % 50;
+			if(b == a) { b = (a + 1) % 4; }
+			static char const* const nm[] = {"ctor(value)", "default-ctor; = value", "copy-ctor", "copy-assign", "move-ctor", "move-assign", "swap", "= value", "assign-convertible", "self-assign"};
+			ctx.desc << " | " << nm[op] << ' ' << a;
+			switch(op) {
+				case 0: ctx.desc << '(' << v << ')'; slot[a] = std::make_unique<Arr>(T(v)); model[a] = v; break;
+				case 1: { ctx.desc << '(' << v << ')'; auto p = std::make_unique<Arr>(); *p = T(v); slot[a] = std::move(p); model[a] = v; break; }
+				case 2: ctx.desc << " <- " << b; slot[a] = std::make_unique<Arr>(*slot[b]); model[a] = model[b]; nt = true; break;
+				case 3: ctx.desc << " <- " << b; *slot[a] = *slot[b]; model[a] = model[b]; nt = true; break;
+				case 4: { ctx.desc << " <- " << b; slot[a] = std::make_unique<Arr>(std::move(*slot[b])); model[a] = model[b]; model[b] = value(*slot[b]); break; }  // the source stays valid; its value is unspecified: re-read
+				case 5: { ctx.desc << " <- " << b; *slot[a] = std::move(*slot[b]); model[a] = model[b]; model[b] = value(*slot[b]); break; }
+				case 6: { ctx.desc << " <-> " << b; using std::swap; swap(*slot[a], *slot[b]); std::swap(model[a], model[b]); break; }
+				case 7: ctx.desc << '(' << v << ')'; *slot[a] = T(v); model[a] = v; break;
+				case 8: if constexpr(std::is_same_v<T, int>) { ctx.desc << '(' << v << ')'; multi::array<long, 0> L(static_cast<long>(v)); *slot[a] = L; model[a] = v; } break;
+				default: { auto const* before = slot[a]->base(); auto& self = *slot[a]; *slot[a] = self; VP_CHECK(slot[a]->base() == before, "value/self_assign", "self-assignment of a 0-D array rebound it"); break; }
+			}
+			VP_CHECK(vp::obs().errors.empty(), "lifetime/error", "after " << nm[op] << ": " << vp::obs().errors.front());
+			for(int i = 0; i < 4; ++i) {
+				Arr const& A = *slot[i];
+				VP_CHECK(A.num_elements() == 1 && A.base() != nullptr, "value/num_elements", "0-D slot " << i << " after " << nm[op] << ": num_elements()=" << A.num_elements());
+				VP_CHECK(value(A) == model[i] && vp::val(*A.base()) == model[i] && vp::val(*A.data_elements()) == model[i], "value/elements", "0-D slot " << i << " after " << nm[op] << " holds " << value(A) << ", model " << model[i]);
+				for(int j = 0; j < i; ++j) {
+					VP_CHECK(A.base() != slot[j]->base(), "value/aliasing", "0-D slots " << j << " and " << i << " share storage after " << nm[op]);
+					bool const eq = model[i] == model[j];
+					VP_CHECK((A == *slot[j]) == eq && (A != *slot[j]) == !eq, "value/equality", "0-D slots " << j << " and " << i << ": == is " << (A == *slot[j]) << ", model " << eq);
+				}
+			}
+		}
+		ctx.nontrivial = nt && in.nops() >= 2;
+	}
+	VP_CHECK(vp::obs().errors.empty() && vp::obs().alive.empty(), "lifetime/error", "at the end: " << (vp::obs().errors.empty() ? std::to_string(vp::obs().alive.size()) + " element(s) still alive" : vp::obs().errors.front()));
+	ctx.label("D0"); ctx.label(std::is_same_v<T, int> ? "T_int" : "T_Tracked");
+}
 }  // namespace
 
 struct Prop {
@@ -20,6 +68,7 @@ struct Prop {
 	static void run(vp::Input const& in, vp::Ctx& ctx) {
 		using vp::Tracked;
 		bool tr = (in.head(0) & 1U) != 0;
+		if(((in.head(0) >> 2U) % 8U) == 7U) { if(tr) { run_d0<Tracked>(in, ctx); } else { run_d0<int>(in, ctx); } return; }  // one case in eight: 0-D arrays
 		switch(in.head(1) % 4) {
 			case 0: tr ? run_td<Tracked, 1>(in, ctx) : run_td<int, 1>(in, ctx); break;
 			case 1: tr ? run_td<Tracked, 2>(in, ctx) : run_td<int, 2>(in, ctx); break;
